@@ -443,10 +443,11 @@ impl Model {
                 let top = self.order.iter().copied().find(|&v| f.depends_on(v));
                 let c = |val: u8| top.map(|v| Den::T(f.cofactor(v, val)));
                 // children order: true, unknown, false
+                // internal value code: 2 = true, 1 = unknown, 0 = false
                 match which {
-                    0 => vec![(*d, c(1)), (*d2, c(2)), (*d3, c(0))],
-                    1 => vec![(*d, c(1))],
-                    2 => vec![(*d, c(2))],
+                    0 => vec![(*d, c(2)), (*d2, c(1)), (*d3, c(0))],
+                    1 => vec![(*d, c(2))],
+                    2 => vec![(*d, c(1))],
                     _ => vec![(*d, c(0))],
                 }
             }
